@@ -9,19 +9,26 @@ CONSTANTS
   RemotePrunes <- MC_RemotePrunesQ
   Policies = {"auto", "explicit"}
   ResetHeights <- MC_ResetHeights
-  MaxPub = 1
-  MaxPrune = 0
-  MaxImp = 1
-  MaxAck = 2
-  MaxForeign = 1
-  MaxReset = 1
-  MaxCrash = 1
+  MaxPub = 2
+  MaxPrune = 1
+  MaxImp = 0
+  MaxAck = 1
+  MaxForeign = 0
+  MaxReset = 0
+  MaxCrash = 2
   MinWork = 0
   Controlled = FALSE
 INVARIANTS
   TypeOK
+  LocksConsistent
+  StoredIsAssociated
+  LogsContiguous
+  PrunedOnlyBelowPruneOp
   CursorIsMaxOfAcked
   OnlyOwnTopicAcked
+  ReplayExact
+  ReplayQueueCoversExpect
+  NeverForgotten
 PROPERTIES
   MC_CursorMonotone
   MC_ForeignTopicRejected
